@@ -1133,6 +1133,23 @@ def _enum_partial_eq(ex, p, m, a, func, fr):
     return None
 
 
+@model(r'^core::slice::<impl \[(?!u8\])(.+)\]>::(split_first|split_last|first|last)$')
+def _list_split_first(ex, p, m, a, func, fr):
+    tr = target_ref(ex, p, a[0]) if isinstance(a[0], Ref) else None
+    lst = ex.load(p.st, tr.base, tr.proj) if tr is not None else a[0]
+    if not isinstance(lst, List):
+        return None
+    if not lst.items:
+        return one(opt_none())
+    op = m.group(2)
+    k = 0 if op in ('split_first', 'first') else len(lst.items) - 1
+    elem = Ref(tr.base, tr.proj + (('cindex', k, False),)) if tr is not None else lst.items[k]
+    if op in ('first', 'last'):
+        return one(opt_some(elem))
+    rest = List(lst.items[1:] if op == 'split_first' else lst.items[:-1])
+    return one(opt_some(Agg('tuple', (elem, p.alloc(rest, 'rest')))))
+
+
 @model(r'^core::slice::<impl \[(?!u8\])(.+)\]>::iter$')
 def _list_iter(ex, p, m, a, func, fr):
     tr = target_ref(ex, p, a[0]) if isinstance(a[0], Ref) else a[0]
